@@ -7,6 +7,7 @@ import (
 	"encoding/binary"
 	"fmt"
 	"math"
+	"pgregory.net/rapid"
 	"reflect"
 
 	"github.com/advancedclimatesystems/gonnx"
@@ -414,6 +415,66 @@ func reuseDifferential(opType string, node *onnx.NodeProto, first, second []tens
 		}
 	}
 	return ""
+}
+
+// reuseSharedParams: the situation of a node whose later inputs are weights of a Model. One operator
+// instance and the very same tensor objects for the inputs 1.. first serve another data tensor
+// (otherData in place of input 0), then the request ins; the answer must be the one a fresh
+// instance gives for fresh copies of ins. Returns a description of the difference or "".
+func reuseSharedParams(opType string, node *onnx.NodeProto, otherData tensor.Tensor, ins []tensor.Tensor) string {
+	if len(ins) < 2 {
+		return ""
+	}
+	fresh := runOp(opType, node, cloneTs(ins))
+	op, err := opset13.GetOperator(opType)
+	if err != nil || op.Init(node) != nil {
+		return ""
+	}
+	apply := func(in []tensor.Tensor) (r opResult) {
+		defer func() {
+			if p := recover(); p != nil {
+				r.panicked, r.panicVal = true, p
+			}
+		}()
+		v, err := op.ValidateInputs(in)
+		if err == nil {
+			v, err = op.Apply(v)
+		}
+		r.outs, r.err = v, err
+		return
+	}
+	shared := cloneTs(ins)
+	_ = apply(append([]tensor.Tensor{otherData}, shared[1:]...))
+	reused := apply(append([]tensor.Tensor{cloneT(ins[0])}, shared[1:]...))
+	if fresh.panicked != reused.panicked || (fresh.err == nil) != (reused.err == nil) {
+		return fmt.Sprintf("fresh instance and tensors: %v; instance and parameter tensors that served a data tensor of shape %v before: %v", fresh, otherData.Shape(), reused)
+	}
+	if !fresh.ok() {
+		return ""
+	}
+	if len(fresh.outs) != len(reused.outs) {
+		return "output count differs"
+	}
+	for i := range fresh.outs {
+		if d := approxSame(reused.outs[i], fresh.outs[i], 1e-5); d != "" {
+			return fmt.Sprintf("output %d differs from a fresh instance after the instance and its parameter tensors served a data tensor of shape %v: %s", i, otherData.Shape(), d)
+		}
+	}
+	return ""
+}
+
+// otherDataLike: a tensor of t's element type whose shape is t's with one axis longer by 1..2.
+func otherDataLike(rt *rapid.T, t tensor.Tensor) (tensor.Tensor, bool) {
+	shape := cloneInts(t.Shape())
+	if len(shape) == 0 || prod(shape) == 0 || prod(shape) > 20000 {
+		return nil, false
+	}
+	if _, ok := t.Data().([]string); ok {
+		return nil, false
+	}
+	a := rapid.IntRange(0, len(shape)-1).Draw(rt, "otherDataAxis")
+	shape[a] += rapid.IntRange(1, 2).Draw(rt, "otherDataPlus")
+	return rangeT(t.Dtype(), shape), true
 }
 
 func getOperator(name string) (ops.Operator, error) { return opset13.GetOperator(name) }
